@@ -66,6 +66,7 @@ type c16Hist struct {
 	Users int     `json:"users"`
 	Block int     `json:"block"`          // gc block size; 0 = unlimited
 	Loop  bool    `json:"loop,omitempty"` // also run the server's own collection loop (period 10 virtual minutes)
+	Grpc  []int   `json:"grpc,omitempty"` // users whose connections talk protobuf (-1: the connections which create accounts)
 	Ops   []c16Op `json:"ops"`
 }
 
@@ -90,6 +91,11 @@ func c16HistGen(rt *rapid.T) c16Hist {
 		h.Block = rapid.IntRange(1, 3).Draw(rt, "block")
 	}
 	h.Loop = rapid.IntRange(0, 3).Draw(rt, "loop") == 0
+	for u := -1; u < h.Users; u++ {
+		if rapid.IntRange(0, 3).Draw(rt, "grpc") == 0 {
+			h.Grpc = append(h.Grpc, u)
+		}
+	}
 	n := rapid.IntRange(4, 24).Draw(rt, "n_ops")
 	kinds := []string{"up", "up", "up", "up", "pub", "pub", "pub", "pub", "pub", "pub", "newgrp", "setdesc", "setdesc", "acc", "delacc", "delmsg", "delmsg", "deltopic", "tick", "tick", "tick", "gc", "gc", "upfail", "upfault"}
 	for i := 0; i < n; i++ {
@@ -286,11 +292,24 @@ type c16Acc struct {
 	dead bool
 }
 
+func (r *c16Run) isGrpc(u int) bool {
+	for _, g := range r.h.Grpc {
+		if g == u {
+			return true
+		}
+	}
+	return false
+}
+
 func (r *c16Run) session(u int) *wSess {
 	if ss := r.sess[u]; ss != nil && !ss.isClosed() {
 		return ss
 	}
 	ss := r.w.addSess()
+	if r.isGrpc(u) {
+		r.w.makeGrpc(ss)
+		r.cls["transport:grpc"] = true
+	}
 	r.w.login(ss, u)
 	id := r.w.nextID()
 	r.w.do(ss, `{"sub":{"id":"`+id+`","topic":"me"}}`)
@@ -601,6 +620,10 @@ func (r *c16Run) step(i int, op c16Op) *kit.Viol {
 		}
 	case "acc":
 		ss := w.addSess()
+		if r.isGrpc(-1) {
+			w.makeGrpc(ss)
+			r.cls["transport:grpc"] = true
+		}
 		w.do(ss, `{"hi":{"id":"`+w.nextID()+`","ver":"0.22","ua":"verif/1.0"}}`)
 		extra, res := r.refsJSON(op.F)
 		id := w.nextID()
